@@ -291,7 +291,13 @@ int main(int argc, char* const* argv)
     CScript::const_iterator it = env->script.begin();
     opcodetype opcode;
     valtype vchPushValue, p2sh_script_payload;
-    while (env->script.GetOp(it, opcode, vchPushValue)) { p2sh_script_payload = vchPushValue; ++count; }
+    while (env->script.GetOp(it, opcode, vchPushValue)) {
+        // what the operation leaves on top of the stack, should it be the last one of a scriptSig paying to a script hash
+        p2sh_script_payload = vchPushValue;
+        if (opcode >= OP_1 && opcode <= OP_16) p2sh_script_payload = valtype(1, (unsigned char)(opcode - (OP_1 - 1)));
+        else if (opcode == OP_1NEGATE) p2sh_script_payload = valtype(1, 0x81);
+        ++count;
+    }
 
     std::vector<std::string> tc_desc;
     CScript p2sh_script;
